@@ -1,7 +1,9 @@
 (* C15 -- tracker events mirror the life cycle of each track.
    Statements only; proofs live in Proofs/TrackerCbProofs.v.  The model is the general one (Model/Tracker.v `trkc_step`):
    the subscriber callbacks may raise.  A history is a list of (environment, operation): the environment says what
-   every callback does during that operation (Props/C13.v explains `trk_env`, `reachable_any`).
+   every callback does during that operation (Props/C13.v explains `trk_env`, `reachable_any`).  Operations: update,
+   cleanup, pop_track, register / remove_callback, the public insert_or_update() (no ordering check, no cleanup),
+   assignments to ttl_in_seconds and stream_is_ordered = False.
 
    rc_calls res              the `self._broker.propagate(track, event)` calls the operation started, in order
    abs_calls                 the same as (event, mmsi) pairs;  run_events_c: all of them over a whole run
@@ -25,10 +27,20 @@ Open Scope Z_scope.
    all prefixes as well). *)
 Theorem C15_lifecycle : forall (V : Type) (nattrs : nat) (ttl : option Z) (ordered : bool)
                                (h : list (trk_env V * trk_op V)) (m : Z),
+  trkc_run_ok nattrs (trk_init ttl ordered) h ->
   let run := trkc_run nattrs (trk_init ttl ordered) h in
   sp_alive m (run_events_c (snd run)) = Some (idict_mem (t_tracks (fst run)) m).
 Proof. exact (fun V => @events_lifecycle_c V). Qed.
 Print Assumptions C15_lifecycle.
+
+(* trkc_run_ok: every environment enumerates the set of expired MMSIs (env_ok) and every `insert_or_update()` handed to an
+   ORDERED tracker carries a timestamp that is not older than a track (Props/C12.v explains the caveat).  Histories
+   without that operation satisfy it as soon as their environments do: *)
+Theorem C15_ok_without_insert_or_update : forall (V : Type) (nattrs : nat) (h : list (trk_env V * trk_op V)) (st : trk_tracker V),
+  (forall x, In x h -> env_ok (fst x)) -> (forall env now msg ts, ~ In (env, OpInsertOrUpdate now msg ts) h) ->
+  trkc_run_ok nattrs st h.
+Proof. exact (fun V => @runc_ok_without_insert V). Qed.
+Print Assumptions C15_ok_without_insert_or_update.
 
 (* What each single operation emits, for every MMSI, from every state -- update (accepted or rejected, returning or left
    by a subscriber's exception), pop_track, cleanup (complete or left in the middle), callback registration: exactly the
@@ -82,6 +94,19 @@ Theorem C15_delivery_complete : forall (A : Type) (raises : A -> bool) (l : list
 Proof. exact (fun A => @cut_all A). Qed.
 Print Assumptions C15_delivery_complete.
 
+(* The registration list in force (`subscribers (t_broker st) event`, to which C15_deliveries refers): register_callback
+   appends the pair -- whatever was registered or removed before --, so the callback IS a subscriber afterwards; registered,
+   removed and registered again leaves the pair registered once, behind the others. *)
+Theorem C15_registered_is_subscribed : forall (b : trk_broker) (ev : trk_event) (cb : Z),
+  In cb (subscribers (brk_attach b ev cb) ev).
+Proof. exact attach_subscribed. Qed.
+Print Assumptions C15_registered_is_subscribed.
+
+Theorem C15_registered_again : forall (b : trk_broker) (ev : trk_event) (cb : Z), ~ In (ev, cb) b ->
+  brk_attach (brk_detach (brk_attach b ev cb) ev cb) ev cb = b ++ [(ev, cb)].
+Proof. exact reattach. Qed.
+Print Assumptions C15_registered_again.
+
 (* Which exception an operation raises: ValueError of a rejected update (nobody was called), or the exception of the LAST
    callback it invoked -- the one that cut the loop --, except that a KeyError of a DELETED callback never leaves. *)
 Theorem C15_exception_origin : forall (V : Type) (nattrs : nat) (env : trk_env V) (st : trk_tracker V) (op : trk_op V) (e : exn),
@@ -129,4 +154,20 @@ Example C15_nonvacuous_raising :
     [[]; []; []; []; [(7, 111)]; [(7, 222)]; [(100, 111); (7, 111)]] /\
   map (@tr_mmsi Z) (trk_tracks (fst run)) = [222] /\
   sp_alive 111 (run_events_c (snd run)) = Some false /\ sp_alive 222 (run_events_c (snd run)) = Some true.
+Proof. vm_compute. repeat split. Qed.
+
+
+(* non-vacuity: subscriber 10 of UPDATED is removed and registered again; the update in between is not delivered to it,
+   the ones after the re-registration are; the TTL is changed and the tracker switched to unordered on the way (these
+   operations emit nothing) *)
+Example C15_nonvacuous_reregistered :
+  let q := @trk_env_quiet Z in
+  let h := [(q, OpAttach UPDATED 10); (q, OpUpdate 0 (mkMsg 111 [MPresent (Some 1)]) (Some 0));
+            (q, OpUpdate 0 (mkMsg 111 [MPresent (Some 1)]) (Some 1));
+            (q, OpDetach UPDATED 10); (q, OpSetTtl (Some 5)); (q, OpUpdate 0 (mkMsg 111 [MPresent (Some 1)]) (Some 2));
+            (q, OpAttach UPDATED 10); (q, OpUnordered); (q, OpUpdate 0 (mkMsg 111 [MPresent (Some 1)]) (Some 3))] in
+  let run := trkc_run 1 (trk_init None true) h in
+  map (fun r => map (fun d => (fst (fst d), tr_lu (snd d))) (rc_deliv r)) (snd run) =
+    [[]; []; [(10, 1)]; []; []; []; []; []; [(10, 3)]] /\
+  run_events_c (snd run) = [(SCreated, 111); (SUpdated, 111); (SUpdated, 111); (SUpdated, 111)].
 Proof. vm_compute. repeat split. Qed.
